@@ -276,7 +276,7 @@ PROPS["C09"] = dict(
                      "from this step relation and C14's (position advances by the delivered clocks on a 70224 cycle): an argument, not a query",
             "thorough": "same"},
     outside=["a single block longer than a frame", "run_frame termination as a direct query (17556+ steps)"],
-    stubs=_GLUE_STUBS, assumptions=["SP = 0xDFF0 (stack position is C07's subject)"],
+    stubs=_GLUE_STUBS, assumptions=["SP is 0xDFF0 or 0x0000 (the latter makes the push land on IE: cancelled dispatch); other stack positions are C07's subject"],
     replay={"*": "solver-only"},
 )
 PROPS["C04"] = dict(
